@@ -7,7 +7,18 @@ import vlib
 import gen_stream as gs
 
 HARNESS = {"zz_verif_test.go": os.path.join(vlib.ROOT, "harness", "outputstream", "zz_verif_test.go"),
-           "zz_verif_stream_test.go": os.path.join(vlib.ROOT, "harness", "outputstream", "zz_verif_stream_test.go")}
+           "zz_verif_stream_test.go": os.path.join(vlib.ROOT, "harness", "outputstream", "zz_verif_stream_test.go"),
+           "zz_verif_stress_test.go": os.path.join(vlib.ROOT, "harness", "outputstream", "zz_verif_stress_test.go")}
+
+
+def stress(run, exe, secs):
+    """free-running readers/writer/compactor with real parallelism; returns (ok, line)"""
+    d = vlib.workdir("c08st")
+    outp = os.path.join(d, "out.txt")
+    rc, out = vlib.run_harness(exe, "/dev/null", outp, env_extra={"VERIF_TMP": d, "VERIF_STRESS_SECONDS": str(secs), "VERIF_SEED": str(run.seed)}, run="TestVerifStreamStress", timeout=secs * 3 + 60)
+    line = open(outp).read().strip() if os.path.exists(outp) else "no output (exit %d): %s" % (rc, out[-600:])
+    shutil.rmtree(d, ignore_errors=True)
+    return line.startswith("ok "), line
 
 # regression corpus (runs first): the two repaired defects as sequential shadows + TestDeleteMiddle
 CORPUS = [
@@ -200,6 +211,8 @@ def check(run):
     corr_ok = di is None and err is None and len(gl) == len(ops)
     run.obligation("correspondence: real OutputStream == Lean model on %d sequential programs (%d ops)" % (len(progs), len(ops)), corr_ok,
                    err or ("first difference at op %s `%s`: go=%s lean=%s" % (di, ops[di] if di is not None and di < len(ops) else "", gl[di][:200] if di is not None and di < len(gl) else "<missing>", ll[di][:200] if di is not None and di < len(ll) else "<missing>")))
+    st_ok, st_line = stress(run, exe, 3 if run.tier == "quick" else 60)
+    run.obligation("free-running stress (parallel readers following the stream, writer, compactor): every batch delivered in order, nobody left blocked", st_ok, st_line)
     bad = oracle(ops, gl)
     kinds = {}
     for o, g in zip(ops, gl):
@@ -218,6 +231,8 @@ def check(run):
             return valid(cand) and oracle(["reset"] + cand, g) is not None
         small = shrink(prog, fails) if len(prog) < 400 else prog
         run.violation("oracle:" + why.split(" ")[0], why, {"kind": "stream", "ops": small, "why": why}, True)
+    elif not st_ok:
+        run.violation("stress:" + st_line.split(":")[0].replace("violation ", "")[:24], st_line, {"kind": "stress", "how": "TestVerifStreamStress with VERIF_SEED=%s" % run.seed, "observed": st_line}, True)
     elif not proved or not corr_ok:
         failed = [o[0] for o in run.failed_obligations()]
         run.violation("broken:" + (failed[0] if failed else "?")[:40], "proof or correspondence no longer checks: %s" % failed,
